@@ -245,6 +245,7 @@ HARNESSES = {
     "errloc": dict(opt="-O1"),
     "constprobe": dict(opt="-O1"),
     "parsefuzz": dict(opt="-O1", sanitize=True, compiler="clang++-14"),
+    "lifetime": dict(opt="-O1", sanitize=True, compiler="clang++-14"),
     "json": dict(opt="-O1", sanitize=True, compiler="clang++-14", flags=["-fno-sanitize=signed-integer-overflow"]),
     "stl": dict(opt="-O1", sanitize=True, compiler="clang++-14"),
 }
